@@ -17,6 +17,9 @@ struct Poly {
 #[derive(Clone, Debug, Hash, Serialize, Deserialize, PartialEq)]
 enum Call {
     Mul { a: Poly, b: Poly },
+    /// both arguments are sub-slices of ONE allocation: a = p[sa .. sa+la'], b = p[sb .. sb+lb'] (same start, nested, overlapping or
+    /// identical ranges, derived from `cut`); also through multiply_into when `into`
+    MulAliased { a: Poly, cut: u32, into: bool },
     /// dst: 0 shorter than la+lb-1, 1 equal, 2 longer; prefilled with a pattern from `fill`
     MulInto { a: Poly, b: Poly, dst: u8, fill: i32 },
     /// fft(a,n), fft(b,n), pointwise product, fft_inv; pad: 0 => smallest power of two, 1 => twice that; auto: pass n = 0 to fft
@@ -165,7 +168,7 @@ fn run<F: Float>(c: &Case, budget: f64, maxlen: u32) -> CaseResult {
     for (step, call) in c.calls.iter().enumerate() {
         let polys: Vec<&Poly> = match call {
             Call::Mul { a, b } | Call::MulInto { a, b, .. } | Call::Spectrum { a, b, .. } | Call::CrossInverse { a, b } | Call::InvIntoTwice { a, b, .. } => vec![a, b],
-            Call::FftIntoTwice { a } => vec![a],
+            Call::FftIntoTwice { a } | Call::MulAliased { a, .. } => vec![a],
             Call::UpdateN { .. } | Call::CloneSwap | Call::FreshDefault => vec![],
         };
         if polys.iter().any(|p| p.len > maxlen) {
@@ -200,6 +203,35 @@ fn run<F: Float>(c: &Case, budget: f64, maxlen: u32) -> CaseResult {
                     }
                     table = table.max(n);
                 }
+            }
+            Call::MulAliased { cut, into, .. } => {
+                let n = va.len();
+                if n == 0 {
+                    continue;
+                }
+                // two ranges inside the one vector `va`
+                let (c0, c1) = ((cut & 0xffff) as usize, (cut >> 16) as usize);
+                let (ra, rb) = match cut % 5 {
+                    0 => (0..n, 0..n),                                 // the same slice twice
+                    1 => (0..1 + c0 % n, 0..n),                        // a prefix and the whole
+                    2 => (0..n, 0..1 + c1 % n),                        // the whole and a prefix
+                    3 => (c0 % n..n, 0..1 + c1 % n),                   // a suffix and a prefix (may overlap)
+                    _ => (0..1 + c0 % n, 0..1 + c1 % n),               // two prefixes
+                };
+                let (sa, sb) = (&va[ra.clone()], &va[rb.clone()]);
+                let want = conv(sa, sb);
+                let got: Vec<i64> = if *into {
+                    let mut d = vec![0i64; sa.len() + sb.len() - 1];
+                    obj.multiply_into(sa, sb, &mut d);
+                    d
+                } else {
+                    obj.multiply(sa, sb)
+                };
+                vensure!(got.len() == want.len(), "result-length", "{}: product of the sub-slices {:?} and {:?} of one vector has {} coefficients, expected {}", what, ra, rb, got.len(), want.len());
+                want.check(&format!("{} sub-slices {:?} x {:?} of one vector", what, ra, rb), &got, step as u64 + 1)?;
+                let full = sa.len() + sb.len() - 1;
+                table = table.max(pow2_at_least(full).max(2));
+                st.label("arguments-alias-one-allocation");
             }
             Call::MulInto { dst, fill, .. } => {
                 let dl = match dst % 3 {
@@ -391,6 +423,7 @@ fn call(max_log: u32) -> impl Strategy<Value = Call> {
     prop_oneof![
         30 => pair().prop_map(|(a, b)| Call::Mul { a, b }),
         15 => (pair(), 0u8..3, any::<i32>()).prop_map(|((a, b), dst, fill)| Call::MulInto { a, b, dst, fill: fill % 1000 }),
+        6 => (pair(), any::<u32>(), any::<bool>()).prop_map(|((a, _), cut, into)| Call::MulAliased { a, cut, into }),
         20 => (pair(), 0u8..2, any::<bool>()).prop_map(|((a, b), pad, auto)| Call::Spectrum { a, b, pad, auto }),
         10 => pair().prop_map(|(a, b)| Call::CrossInverse { a, b }),
         6 => (1u32..=(1 << max_log.min(9))).prop_flat_map(poly).prop_map(|a| Call::FftIntoTwice { a }),
@@ -482,6 +515,13 @@ fn main() {
         ctx.exhaustive("tables-beyond-2^16", "fft-history", "transforms of size 2^17 / 2^18 followed by small products on the same object", false, hs, run_case);
     }
     if release {
+        // the envelope corner itself at the largest sizes: non-negative coefficients (large mean) at max^2 * len = 10^12, transform size 2^20 / 2^21
+        let big = |len: u32, shape: u8, seed: u32| Poly { len, shape, seed };
+        let mut hs = Vec::new();
+        for &(la, lb, sa, sb) in [(1u32 << 19, 1u32 << 19, 0u8, 0u8), ((1 << 19) + 1, 1 << 19, 5, 5), (1 << 20, 1 << 20, 0, 5), (1 << 20, 1 << 18, 5, 0)].iter().take(if ctx.thorough() { 4 } else { 3 }) {
+            hs.push(Case { float: 0, amp: u16::MAX, calls: vec![Call::Mul { a: big(la, sa, 11), b: big(lb, sb, 12) }] });
+        }
+        ctx.exhaustive("envelope-corner-at-2^20", "fft-history", "non-negative coefficients at the envelope amplitude, lengths 2^19 .. 2^20 (transform size 2^20 / 2^21)", false, hs, run_case);
         // envelope corners at larger sizes (release only: the checked build is ~10x slower here)
         ctx.prop_cfg("large-f64", "fft-history", ctx.n(60, 600), 40, case(0, ctx.n(14, 17) as u32, 3), run_case);
     }
